@@ -166,11 +166,15 @@ class Loop(abc.ABC, Generic[_T]):
         if clear_next:
             world_handle.clear()
 
-        self._current_world_handle = world_handle
-        self._current_world = world_handle()
+        # Load before committing: if loading raises (e.g. Quit) world
+        # and handle are left paired
+        world = world_handle()
 
-        assert isinstance(self._current_world, World), \
-            '%s is not of type World' % self._current_world
+        assert isinstance(world, World), \
+            '%s is not of type World' % world
+
+        self._current_world_handle = world_handle
+        self._current_world = world
 
     @property
     def current_world(self) -> Optional[_T]:
